@@ -52,3 +52,36 @@ Proof.
   destruct (GM_reachable c m be Hc ops init [] 0 0 (GM_init c Hb0) Hout ltac:(lia) ltac:(lia)) as (g & HG).
   destruct HG as (_ & Hd & _). apply (reopen_stream c _ Hc Hd).
 Qed.
+
+(* C08 / C07 boolean form after any history with restarts outside drift, any mode *)
+Corollary crash_only_prefixes_after_restarts c m be ops t es j : cfg_ok c ->
+  outside_known (env_of c m be) init ops = true ->
+  N.of_nat (length (offered_all ops)) <= u64_max -> sum_len (offered_all ops) <= u64_max ->
+  batch_ok c t es ->
+  let s := exec (env_of c m be) init ops in
+  exists k, (k <= length es)%nat /\ stream_of (batch_crash c s t es j) (t_id t) = stream_of s (t_id t) ++ firstn k es.
+Proof.
+  intros Hc Hout HB HBb Hbok. cbn zeta. exists (Nat.min j (length es)). split; [lia|].
+  rewrite !stream_of_stream, (crash_inside_batch_after_restarts c m be ops t es j Hc Hout HB HBb Hbok (t_id t)), N.eqb_refl. f_equal.
+  destruct (Nat.le_gt_cases j (length es)) as [H|H]; [now rewrite Nat.min_l by lia|].
+  rewrite Nat.min_r by lia. rewrite !firstn_all2 by lia. reflexivity.
+Qed.
+
+Corollary crash_inside_batch_c07_after_restarts c m be ops t es j : cfg_ok c ->
+  outside_known (env_of c m be) init ops = true ->
+  N.of_nat (length (offered_all ops)) <= u64_max -> sum_len (offered_all ops) <= u64_max ->
+  batch_ok c t es ->
+  let s := exec (env_of c m be) init ops in
+  c07_ok (stream_of s (t_id t)) es (map out_of (stream_of (batch_crash c s t es j) (t_id t))) = true /\
+  forall t0, t0 <> t_id t -> stream_of (batch_crash c s t es j) t0 = stream_of s t0.
+Proof.
+  intros Hc Hout HB HBb Hbok. cbn zeta. split.
+  - apply c07_ok_spec. exists (Nat.min j (length es)). split; [lia|].
+    rewrite !stream_of_stream, (crash_inside_batch_after_restarts c m be ops t es j Hc Hout HB HBb Hbok (t_id t)), N.eqb_refl.
+    replace (firstn (Nat.min j (length es)) es) with (firstn j es).
+    + apply outs_are_map.
+    + destruct (Nat.le_gt_cases j (length es)) as [H|H]; [now rewrite Nat.min_l by lia|].
+      rewrite Nat.min_r by lia. rewrite !firstn_all2 by lia. reflexivity.
+  - intros t0 Hne. rewrite !stream_of_stream, (crash_inside_batch_after_restarts c m be ops t es j Hc Hout HB HBb Hbok t0).
+    now replace (t0 =? t_id t) with false by lia.
+Qed.
